@@ -12,6 +12,7 @@ mod reader;
 mod slicing;
 mod mergeh;
 mod sinkh;
+mod statsh;
 
 use serde_json::{json, Value};
 use std::io::{BufRead, BufReader, Write};
@@ -82,6 +83,7 @@ fn main() {
         "slicing" => slicing::run_case,
         "merge" => mergeh::run_case,
         "sink" => sinkh::run_case,
+        "stats" => statsh::run_case,
         other => {
             eprintln!("unknown subcommand {}", other);
             std::process::exit(2);
